@@ -95,7 +95,9 @@ type Link struct {
 	OpenedEv int64
 	// CloseEv[i]: event at which endpoint i (0=A,1=B) closed its socket; 0 = open
 	CloseEv [2]int64
+	CloseAt [2]time.Duration // simulated time of that close
 	CutEv   int64 // event at which a fault reset the link
+	CutAt   time.Duration
 }
 
 type pipe struct {
@@ -263,6 +265,7 @@ func (p *pipe) other() *pipe {
 func (l *Link) reset(n *Net, why string) {
 	if l.CutEv == 0 {
 		l.CutEv = n.w.tick()
+		l.CutAt = simrt.Elapsed()
 	}
 	for _, p := range []*pipe{l.A.wr, l.B.wr} {
 		p.rst = true
@@ -552,6 +555,7 @@ func (c *Conn) Close() error {
 	c.closed = true
 	if c.link.CloseEv[c.side] == 0 {
 		c.link.CloseEv[c.side] = c.n.w.tick()
+		c.link.CloseAt[c.side] = simrt.Elapsed()
 	}
 	c.n.w.event("sockclose", "link%d side%d (%s)", c.link.ID, c.side, c.Owner)
 	// our outgoing direction ends with a FIN after the data already written
